@@ -436,7 +436,7 @@ func (l pyList) Freeze() pyObject {
 			frozen[i] = v
 		}
 	}
-	return pyFrozenList{pyList: l}
+	return pyFrozenList{pyList: frozen}
 }
 
 // Repeat returns a copy of this list, repeated n times
